@@ -34,7 +34,7 @@ ASSUMPTIONS = {
 LEAN_NAMES = {"cnt_store": "cnt_store", "cnt_const": "cnt_const", "cnt_range": "cnt_range", "cnt_pos": "cnt_pos", "cnt_all": "cnt_all / cnt_none",
               "cnt_congr": "cnt_congr", "sum_store": "sum_store", "sum_const": "sum_const'", "sum_le_quota": "sum_le_quota",
               "sum_ge_quota": "sum_ge_quota", "sum_eq_quota": "sum_eq_quota", "inj_surj": "inj_surj", "psum_empty": "psum_empty",
-              "psum_step": "psum_step", "psum_split": "psum_split", "psum_congr": "psum_congr", "weighted_variance": "weighted_variance"}
+              "psum_step": "psum_step", "psum_split": "psum_split", "psum_congr": "psum_congr", "weighted_variance": "weighted_variance", "row_mean_bounds": "mean_bounds"}
 
 
 def load_known():
